@@ -713,7 +713,7 @@ class Frame:
             return TypeRef(("int", "float", "bool"))
         if short in EXC_BASES or short.endswith("Error") or short in ("Exception", "UnexpectedInput"):
             return FuncRef(None, builtin="exc:" + short)
-        if full in BUILTINS:
+        if full in BUILTINS or full.startswith(("logging.", "warnings.")) or full in ("os.getcwd",):
             return FuncRef(None, builtin=full)
         if full in ("logging", "os", "sys", "json", "copy", "codecs", "click", "glob", "warnings", "functools", "itertools", "jsonschema", "jsonref", "os.path"):
             return ModRef("ext:" + full)
